@@ -7,6 +7,8 @@ pub mod quotes;
 pub mod authmatrix;
 pub mod lair;
 pub mod feeflow;
+pub mod config;
+pub mod toggles;
 
 pub fn make(name: &str, variant: &str) -> Option<Box<dyn Engine>> {
     match name {
@@ -18,6 +20,8 @@ pub fn make(name: &str, variant: &str) -> Option<Box<dyn Engine>> {
         "authmatrix" => Some(Box::new(authmatrix::AuthMatrix::new(variant))),
         "lair" => Some(Box::new(lair::Lair::default())),
         "feeflow" => Some(Box::new(feeflow::Feeflow::new(variant))),
+        "toggles" => Some(Box::new(toggles::Toggles::new(variant))),
+        "config" => Some(Box::new(config::Config::new(variant))),
         _ => None,
     }
 }
